@@ -861,9 +861,9 @@ def gen_C18(tier, seed):
     rng = random.Random(seed)
     b = Builder("C18")
     maxd = 4 if tier == "quick" else 6
-    for elem in ["u32", "cell", "zst"]:
+    for elem in ["u32", "cell", "zst", "nan"]:       # `nan` (de)serialises its cells through serde's 128-bit integer entry points
         for (C, R) in shapes(maxd) + [(1, 9), (9, 1), (7, 5)]:
-            d = [rng.choice([0, 1, 7, 4294967295, rng.randrange(2**32)]) for _ in range(C * R)]
+            d = [rng.choice([0, 1, 7, 4294967295, rng.randrange(2**32) if elem != "nan" else rng.randrange(1000)]) for _ in range(C * R)]
             root = f"@ from_vec {C} {R} {fl(d)}"
             lines = [root, "@ ser"] + [f"@ roundtrip {t}" for t in TRANSPORTS]
             if elem == "u32":
